@@ -312,10 +312,17 @@ def cli_check_one(exe, stream, hx, model_line, harness_line):
             if name == 'stdout' and dbg not in g:
                 return 'stdout record %r does not contain the decoded message %r' % (g[:300], dbg[:300])
             if b'\t' in g:
+                # order: when a record echoes a line of the input (in Rust's debug quoting, as the tool does today; line
+                # ends and blanks at the end disregarded — how a line is echoed is not the property's business), it
+                # must be THIS line.  An echo that matches no line of the input at all is a format this check does
+                # not know: no verdict from it.
                 echo = g.split(b'\t', 1)[0]
                 un = rust_debug_unescape(echo.decode('utf-8', 'replace'))
-                if un is not None and un != line.decode('utf-8', 'replace'):
-                    return '%s record echoes %r, expected line %r (records out of order?)' % (name, echo[:200], line[:200])
+                if un is not None:
+                    norm = lambda t: t.rstrip('\r\n \t')
+                    here = norm(line.decode('utf-8', 'replace'))
+                    if norm(un) != here and any(norm(l2.decode('utf-8', 'replace')) == norm(un) for l2 in lines):
+                        return '%s record echoes %r, expected line %r (records out of order?)' % (name, echo[:200], line[:200])
     return None
 
 def c20(tier, rng, seed):
